@@ -252,12 +252,144 @@ let run_trace infile outfile =
       | _ -> failwith ("bad trace line: " ^ l)) lines;
   close_out oc
 
+(* ---------------------------------------------------------------- tracecc mode
+   raftrun tracecc <traces.txt> <out>
+   Trace validation of schedules WITH membership changes against RaftCC.exec_cc through the
+   extracted check_step_cc (same acceptance rule as trace mode, plus equality of the node's
+   configuration).  Header: N <n> <electionTick> <rngseed> <MaxSizePerMsg> <k>: the initial voters
+   are 1..k; one committed entry per Ready iff MaxSizePerMsg = 0. *)
+
+let conf_str (c : conf) : string =
+  let l x = String.concat "," (List.map (fun i -> string_of_int (int_of_nat i)) x) in
+  Printf.sprintf "(%s)&&(%s)%s" (l c.c_in) (l c.c_out) (if c.c_auto then " autoleave" else "")
+
+(* ... <nlog> (t p)* CFG <nin> ids <nout> ids <auto> *)
+let split_cfg (toks : string list) : string list * conf =
+  let rec go acc = function
+    | "CFG" :: rest -> (List.rev acc, rest)
+    | x :: t -> go (x :: acc) t
+    | [] -> failwith "ST line without CFG" in
+  let st, rest = go [] toks in
+  let ints = List.map int_of_string rest in
+  let nin, r = (List.hd ints, List.tl ints) in
+  let cin, r = take_n nin r in
+  let nout, r = (List.hd r, List.tl r) in
+  let cout, r = take_n nout r in
+  let auto = (match r with [a] -> a = 1 | _ -> failwith "bad CFG") in
+  (st, { c_in = List.map nat_of_int cin; c_out = List.map nat_of_int cout; c_auto = auto })
+
+(* do all quorums of configurations a and b intersect?  (ids 1..n; brute force over the 2^n
+   subsets p: a quorum of a inside p and a quorum of b inside the complement of p would be disjoint) *)
+let confs_intersect (n : int) (a : nat list * nat list) (b : nat list * nat list) : bool =
+  let ok = ref true in
+  for mask = 0 to (1 lsl n) - 1 do
+    let p (x : nat) = let i = int_of_nat x in i >= 1 && i <= n && (mask lsr (i - 1)) land 1 = 1 in
+    let np (x : nat) = not (p x) in
+    if joint_satb (fst a) (snd a) p && joint_satb (fst b) (snd b) np then ok := false
+  done;
+  !ok
+
+let normalize_cc (n : int) (x : cxstate) : cxstate =
+  let arr = Array.init (n + 1) (fun i -> x.cx_nodes (nat_of_int i)) in
+  { cx_nodes = (fun y -> let i = int_of_nat y in if i <= n then arr.(i) else (init_node, O)); cx_msgs = x.cx_msgs }
+
+let run_tracecc infile outfile =
+  let oc = open_out_bin outfile in
+  let lines = read_lines infile in
+  let cur_k = ref "" and cur_n = ref 0 and header = ref "" and cur_boot = ref 0 and cur_page1 = ref false in
+  let groups : group list ref = ref [] in
+  let cur : group option ref = ref None in
+  let flush_group () = (match !cur with Some g -> groups := { g with g_out = List.rev g.g_out } :: !groups | None -> ()); cur := None in
+  let finish () =
+    flush_group ();
+    let gs = List.rev !groups in
+    groups := [];
+    let n = !cur_n in
+    let boot = { c_in = List.init !cur_boot (fun i -> nat_of_int (i + 1)); c_out = []; c_auto = false } in
+    let page1 = !cur_page1 in
+    let x = ref (normalize_cc n cx_init) in
+    let fail = ref None in
+    let idx = ref 0 and confs = ref 0 and elections = ref 0 in
+    let prevrole = Array.make (n + 1) Follower and prevcfg = Array.make (n + 1) boot in
+    (* every configuration obtained from a prefix of any log seen in this schedule *)
+    let family : (nat list * nat list) list ref = ref [(boot.c_in, boot.c_out)] in
+    let add_cfg (c : conf) = let k = (c.c_in, c.c_out) in if not (List.mem k !family) then family := k :: !family in
+    (try
+       List.iter (fun g ->
+           incr idx;
+           let idn = nat_of_int g.g_id in
+           (match g.g_panic with
+            | Some p -> fail := Some (Printf.sprintf "event=%d reason=implementation-panic | %s %d %s | %s" !idx g.g_kind g.g_id (String.concat " " g.g_args) p); raise Exit
+            | None -> ());
+           let sttoks, obs_cfg = match g.g_st with Some t -> split_cfg t | None -> failwith "missing ST" in
+           let obs = snd (proj_of_tokens sttoks) in
+           let outs = (try List.filter_map (fun t -> match t with "P" :: _ -> None | _ -> Some (msg_of_tokens t)) g.g_out
+                       with Unmodelled c -> fail := Some (Printf.sprintf "event=%d reason=unmodelled-message %s" !idx c); raise Exit) in
+           let base = if String.length g.g_kind > 1 && g.g_kind.[0] = 'X' then "R" else g.g_kind in
+           let candidates : event list =
+             (try match base with
+                | "C" -> [EvCampaign]
+                | "P" | "CC" -> [EvPropose (nat_of_int (int_of_string (List.hd g.g_args)))]
+                | "T" -> [EvTick; EvCampaign]
+                | "SR" | "K" -> [EvTick]
+                | "R" -> [EvRestart]
+                | "D" | "DD" -> [EvRecv (msg_of_tokens g.g_args)]
+                | "FP" | "FPD" -> (match g.g_args with _ :: _ :: _ :: p :: _ -> [EvPropose (nat_of_int (int_of_string p))] | _ -> failwith "bad FP")
+                | k -> failwith ("unknown event kind " ^ k)
+              with Unmodelled c -> fail := Some (Printf.sprintf "event=%d reason=unmodelled-message %s" !idx c); raise Exit) in
+           let rec try_all_ok evs = match evs with
+             | [] -> None
+             | ev :: rest -> (match check_step_cc boot page1 !x idn ev outs obs obs_cfg with CVOk x' -> Some x' | _ -> try_all_ok rest) in
+           let first_verdict = check_step_cc boot page1 !x idn (List.hd candidates) outs obs obs_cfg in
+           let verdict = match first_verdict with
+             | CVOk _ -> first_verdict
+             | v -> (match try_all_ok (List.tl candidates) with Some x' -> CVOk x' | None -> v) in
+           (match verdict with
+            | CVOk x' ->
+              if obs.p_role = Leader && prevrole.(g.g_id) <> Leader then incr elections;
+              prevrole.(g.g_id) <- obs.p_role;
+              if prevcfg.(g.g_id) <> obs_cfg then incr confs;
+              prevcfg.(g.g_id) <- obs_cfg;
+              (let rec go c = function [] -> () | e :: t -> let c' = cfg_of c [e] in add_cfg c'; go c' t in go boot obs.p_log);
+              x := normalize_cc n x'
+            | CVBadEvent -> fail := Some (Printf.sprintf "event=%d reason=delivered-message-never-sent | %s" !idx (String.concat " " g.g_args)); raise Exit
+            | CVMissingReply m -> fail := Some (Printf.sprintf "event=%d reason=missing-reply | model replies: %s | %s %d %s" !idx (msg_str m) g.g_kind g.g_id (String.concat " " g.g_args)); raise Exit
+            | CVBadEmit m -> fail := Some (Printf.sprintf "event=%d reason=forbidden-message | impl sent: %s | %s %d %s" !idx (msg_str m) g.g_kind g.g_id (String.concat " " g.g_args)); raise Exit
+            | CVStateMismatch (e, c) -> fail := Some (Printf.sprintf "event=%d reason=state-mismatch | model: %s cfg %s | impl: %s cfg %s | %s %d %s" !idx (proj_str e) (conf_str c) (proj_str obs) (conf_str obs_cfg) g.g_kind g.g_id (String.concat " " g.g_args)); raise Exit)) gs
+     with Exit -> ());
+    (match !fail with
+     | Some f -> Printf.fprintf oc "S %s FAIL %s\n" !cur_k f
+     | None ->
+       let fam = !family in
+       let inside = List.for_all (fun a -> List.for_all (fun b -> confs_intersect n a b) fam) fam in
+       Printf.fprintf oc "S %s OK events=%d nodes=%d elections=%d confswitches=%d configs=%d envelope=%d\n" !cur_k !idx n !elections !confs
+         (List.length fam) (if inside then 1 else 0)) in
+  List.iter (fun l ->
+      match split_ws l with
+      | ["SCHEDULE"; k] -> cur_k := k; groups := []; cur := None
+      | "N" :: n :: _ :: _ :: ms :: k :: _ -> cur_n := int_of_string n; cur_boot := int_of_string k; cur_page1 := (ms = "0"); header := l
+      | "EV" :: kind :: id :: args -> flush_group (); cur := Some { g_kind = kind; g_id = int_of_string id; g_args = args; g_out = []; g_st = None; g_panic = None }
+      | "OUT" :: toks -> (match !cur with Some g -> cur := Some { g with g_out = toks :: g.g_out } | None -> ())
+      | "ST" :: toks -> (match !cur with Some g -> cur := Some { g with g_st = Some toks } | None -> ())
+      | "PANIC" :: toks -> (match !cur with Some g -> cur := Some { g with g_panic = Some (String.concat " " toks) } | None -> ())
+      | ["END"; _] -> finish ()
+      | [] -> ()
+      | _ -> failwith ("bad trace line: " ^ l)) lines;
+  close_out oc
+
 (* ---------------------------------------------------------------- monitor mode
    raftrun monitor <traces.txt> <out>
    Evaluates the safety predicates directly on the OBSERVED states of the implementation (no
    model stepping): used when trace validation has found a deviation, to look for an actual
    violation of the property.  Per schedule: "S <k> SAFE events=.." or
    "S <k> UNSAFE event=<i> reason=<...> | details". *)
+
+let strip_cfg (toks : string list) : string list =
+  let rec go acc = function
+    | "CFG" :: _ -> List.rev acc
+    | x :: t -> go (x :: acc) t
+    | [] -> List.rev acc in
+  go [] toks
 
 let nstate_of_proj (p : nproj) : nstate =
   { n_term = p.p_term; n_vote = p.p_vote; n_log = p.p_log; n_commit = p.p_commit; n_role = p.p_role;
@@ -290,7 +422,7 @@ let run_monitor infile outfile =
            (match g.g_panic with
             | Some p -> fail := Some (Printf.sprintf "event=%d reason=implementation-panic | %s %d %s | %s" !idx g.g_kind g.g_id (String.concat " " g.g_args) p); raise Exit
             | None -> ());
-           let obs = match g.g_st with Some t -> snd (proj_of_tokens t) | None -> failwith "missing ST" in
+           let obs = match g.g_st with Some t -> snd (proj_of_tokens (strip_cfg t)) | None -> failwith "missing ST" in
            let idn = nat_of_int g.g_id in
            let old_n = arr.(g.g_id) in
            let new_n = nstate_of_proj obs in
@@ -334,7 +466,7 @@ let run_monitor infile outfile =
     (match !fail with
      | Some f -> Printf.fprintf oc "S %s UNSAFE %s\n" !cur_k f
      | None ->
-       let conf = List.length (List.filter (fun (_, p) -> let i = int_of_nat p in i = 98 || i = 99) !committed) in
+       let conf = List.length (List.filter (fun (_, p) -> let i = int_of_nat p in i >= 100 && i < 230) !committed) in
        Printf.fprintf oc "S %s SAFE events=%d leaders=%d committed=%d confcommitted=%d\n" !cur_k !idx
          (Hashtbl.length leaders) (List.length !committed) conf) in
   List.iter (fun l ->
@@ -355,4 +487,5 @@ let () =
   | [_; "quorum"; i; o] -> run_quorum i o
   | [_; "trace"; i; o] -> run_trace i o
   | [_; "monitor"; i; o] -> run_monitor i o
-  | _ -> prerr_endline "usage: raftrun quorum|trace|monitor <in> <out>"; exit 3
+  | [_; "tracecc"; i; o] -> run_tracecc i o
+  | _ -> prerr_endline "usage: raftrun quorum|trace|monitor|tracecc <in> <out>"; exit 3
